@@ -439,6 +439,7 @@ class RTCMMessage:
         """
 
         try:
-            return "MSM" in RTCM_MSGIDS[self.identity]
+            desc = RTCM_MSGIDS[self.identity]
+            return "MSM" in desc and "Reserved" not in desc
         except KeyError:
             return False
